@@ -127,6 +127,7 @@ type Sim struct {
 	obs   []string // observation strings forming the outcome class
 
 	streamsSeen []*Stream
+	InvOn       bool // evaluate white-box invariants at quiescent points
 }
 
 func (m *Sim) Failf(oracle, format string, args ...any) {
@@ -423,6 +424,10 @@ func payload(sid uint16, msg int, n int) []byte {
 	b := make([]byte, n)
 	for i := range b {
 		b[i] = byte(int(sid)*131 + msg*31 + i*7 + 3)
+	}
+	if n >= 4 {
+		// make messages of one stream pairwise distinct
+		b[0], b[1], b[2] = byte(msg), byte(msg>>8), byte(int(sid)+msg>>16)
 	}
 	return b
 }
